@@ -45,11 +45,11 @@ def raw_value(model, term):
     if z3.is_int(v):
         return v.as_long()
     if z3.is_fp(v):
-        b = model.eval(z3.fpToIEEEBV(term), model_completion=True)
+        # NaN has no unique IEEE bit pattern in z3 (fp.to_ieee_bv of NaN is unspecified): test it first
+        if z3.is_true(model.eval(z3.fpIsNaN(term), model_completion=True)):
+            return ('nan', term.sort().ebits(), term.sort().sbits())
+        b = model.eval(z3.fpToIEEEBV(v), model_completion=True)
         if not z3.is_bv_value(b):
-            # NaN has no unique IEEE bit pattern in z3: pick the canonical quiet NaN
-            if z3.is_true(model.eval(z3.fpIsNaN(term), model_completion=True)):
-                return ('nan', term.sort().ebits(), term.sort().sbits())
             b = z3.simplify(b)
         return ('fp', b.as_long(), term.sort().ebits(), term.sort().sbits())
     if z3.is_real(v):
